@@ -17,6 +17,8 @@
 #   (J5) a statement `self.m(…)` calling a translated method whose only effect is the log `written_`: the callee's log is appended
 #   (J6) `o.get_full()` on an object modelled by its array (an NDArrayImageStack): the TRANSLATED `NDArrayImageStack.get_full`
 #   (J8) `n * a` / `a * n` for an int literal `n` and an n-d array `a`                    Py.mulScalarL (float n) a / Py.mulScalarR a (float n)
+#   (J9) `if [not] isinstance(x, np.ndarray):` for a variable typed as an n-d array: decided statically
+#   (J10) `self[key]` inside the `__getitem__` being translated (no array to hand the key to): the method calls ITSELF (recursion on the fuel)
 #   (J7) `self[k]` inside a method of a class whose `__getitem__` is translated for this key type (declared by `call_alias`-free lookup
 #        `<Class>.__getitem__#slices`): here only the all-`:` key on an NDArrayImageStack, i.e. `self.imgs.__getitem__((:, :, :, :))` = (J2)
 # TRUSTED GLUE: listed in design_notes/session4/imgio2.md.
@@ -159,6 +161,38 @@ def _io2_stmt(tr, s):
     return None
 
 
+def _io2_rec_getitem(tr, e, want):
+    """(J10) `self[key]` inside the `__getitem__` being translated, on an object with no modelled array: the method CALLS ITSELF — a recursive
+    call (the spec must be a recursion group with fuel)"""
+    if (isinstance(e, ast.Subscript) and isinstance(e.ctx, ast.Load) and isinstance(e.value, ast.Name) and e.value.id == "self"
+            and "self" not in tr.vars and "imgs" not in tr.vars and tr.spec.func == "__getitem__" and tr.spec.rec_group and tr.spec.fuel
+            and len(tr.spec.params) == 1):
+        pt = parse_type(tr.spec.vars[tr.spec.params[0]])
+        s0, c, t = tr.tr(e.slice, pt)
+        if t != pt:
+            return None
+        n = tr.bindname()
+        return s0 + [f"Py.bind ({tr.spec.lean} fuel {c}) fun {n} =>"], n, parse_type(tr.spec.ret)
+    return None
+
+
+def _io2_isinstance_stmt(tr, s):
+    """(J9) `if [not] isinstance(x, np.ndarray):` for a variable typed as an n-d array: decided statically"""
+    if not isinstance(s, ast.If):
+        return None
+    test, neg = s.test, False
+    if isinstance(test, ast.UnaryOp) and isinstance(test.op, ast.Not):
+        test, neg = test.operand, True
+    if not (isinstance(test, ast.Call) and ast.unparse(test.func) == "isinstance" and len(test.args) == 2 and not test.keywords
+            and isinstance(test.args[0], ast.Name) and test.args[0].id in tr.vars and ast.unparse(test.args[1]) == "np.ndarray"
+            and _io_is_arr(tr.var_type(test.args[0].id))):
+        return None
+    live = s.orelse if neg else s.body
+    return tr.block(live) if live else "Py.skip"
+
+
+EXPR_HOOKS.append(_io2_rec_getitem)
+STMT_HOOKS.append(_io2_isinstance_stmt)
 EXPR_HOOKS.append(_io2_expr)
 STMT_HOOKS.append(_io2_stmt)
 
@@ -236,3 +270,13 @@ spec(lean="raster_transform_nd", module="AlgoImgIo2", file=_IS_FILE, cls="ToImag
      stmt_subst={"voxel = sampler.sample(scene)": "voxel = sample(sampler, scene)"},
      doc="`swcgeom/transforms/image_stack.py::ToImageStack.transform`, the instantiation `verbose` falsy / `ranges` not passed, the sampler's answer "
          "an n-d array: as `raster_transform`, with the frame conversion `(255 * voxel[..., 0, 0]).astype(np.uint8)` translated")
+
+# `GrayImageStack.__getitem__` starts with `v = self[key]`: it calls ITSELF.  Translated as what it is, a recursive function (fuel = recursion
+# depth); instantiation: an int-triple key, the result typed as an n-d array (a numpy scalar = a 0-d array).  RefineImgIo2.gray_getitem_never_returns.
+spec(lean="gray_getitem", module="AlgoImgIo2", file=_IO_FILE, cls="GrayImageStack", func="__getitem__", params=["key"], num_tparams=["K"],
+     fuel=True, rec_group="gray_getitem", vars={"key": "Int × Int × Int", "v": "NdArr K"}, ret="NdArr K",
+     doc="`swcgeom/images/io.py::GrayImageStack.__getitem__` (the overload `key: Vec3i`; `v = self[key]` is a call of the method itself)")
+# Trusted glue: the object is the stack it wraps.
+spec(lean="gray_init", module="AlgoImgIo2", file=_IO_FILE, cls="GrayImageStack", func="__init__", params=["imgs"], num_tparams=["K"],
+     vars={"imgs": "NdArr K"}, ret="NdArr K", stmt_subst={"self.imgs = imgs": "return imgs"},
+     doc="`swcgeom/images/io.py::GrayImageStack.__init__` (the object is the stack it wraps, here an NDArrayImageStack = its array)")
